@@ -29,8 +29,7 @@ def drive(ctx):
     for zn in my:
         zr = {"n": zn, "fo": 0}
         an = anomalies(ctx, zn)
-        if q:
-            an = pick(rnd, an, 8 if full else 2)
+        an = pick(rnd, an, (8 if full else 2) if q else 24)          # thorough: 24 anomalies of every zone, every entry point
         for (kind, ws, we, _sec, _b, _a) in an:
             for (ls, us) in walls_of(kind, ws, we):
                 w = wall_of_localsec(ls, us)
